@@ -42,26 +42,46 @@ def run(tier, seed):
     if rc != 0:
         raise common.ToolError("addrbook_replay failed: " + se[-800:])
     rep = common.load_report(rp)
+    import nodeaddrs
+    node_cov, viol = {}, 0
+    try:
+        common.handle_failures(PROP, rep["failures"], "transition_failure")
+        node_cov = nodeaddrs.run(tier, seed)
+    except common.Violation:
+        viol = 1
+        raise
+    finally:
+        _evidence(tier, seed, r, total, rep, node_cov, t0, viol)
+    log(f"[C18] ok: {r.distinct} books, {total} transitions enumerated, {rep['evaluations']} replayed")
+    return 0
+
+
+def _evidence(tier, seed, r, total, rep, node_cov, t0, viol):
     cov = {
         "states": r.distinct, "transitions": total, "traces_validated_against_impl": rep["evaluations"],
         "samples": rep["samples"][:3], "evaluations": rep["evaluations"], "distinct_nontrivial": rep["distinct"],
         "rule": "states = reachable address books (2 committee keys x {none, (version,timestamp) in 0..1^2}); transitions = every batch of <= 2 "
                 "entries over keys {v1,v2,outsider} x version x timestamp x forged from every reachable book; each replayed transition first "
                 "re-establishes the pre-state on a fresh real address book",
-        "exhaustive": tier != "quick", "transitions_enumerated": total,
+        "exhaustive": tier != "quick", "transitions_enumerated": total, "node_level": node_cov,
     }
     common.write_evidence(PROP, tier, seed, "model_checking", cov,
-                          ["forged = signature by another key (BLS soundness assumed)", "extreme versions/timestamps are covered by C10's value tables, not here"],
-                          time.time() - t0, len(rep["failures"]))
-    common.handle_failures(PROP, rep["failures"], "transition_failure")
-    log(f"[C18] ok: {r.distinct} books, {total} transitions enumerated, {rep['evaluations']} replayed")
-    return 0
+                          ["forged = signature by another key (BLS soundness assumed)",
+                           "node level: the connection attempt is the observation of 'the address a node will dial'; the node's own announcement (loopback) is not scripted"],
+                          time.time() - t0, viol)
 
 
 def replay(path, seed):
     import json
-    c = json.load(open(path))["case"]
+    c0 = json.load(open(path))
     common.cargo_build()
+    if c0.get("mode") == "node_addrs":
+        import nodeaddrs
+        return nodeaddrs.replay(c0)
+    c = c0["case"]
+    if c.get("mode") == "node_addrs":
+        import nodeaddrs
+        return nodeaddrs.replay({"seed": c["seed"], "runs": 6, "batches": 60})
     d = common.outdir(PROP)
     cp = os.path.join(d, "replay_case.ndjson")
     common.write_ndjson(cp, [c["case"]])
